@@ -113,6 +113,12 @@ def cases(tier):
                         if vec and len(ch) > 1 and tier != "thorough":
                             continue
                         out.append(dict(kind="spline", chains=list(ch), N=N, grid=g, vec=vec))
+        cons = [("state", 0.0, None, 0.9), ("state", 0.3, -1.0, 0.8), ("last", 0.3, -1.0, 2.0), ("last", -0.2, None, 0.7), ("control", 0.25, -1.2, 1.1), ("control", 0.0, None, 0.9)]
+        for ch in [(1,), (2,), (3,), (2, 1)]:
+            for N in (2, 3):
+                for g in ("uniform", "geom"):
+                    for con in cons:
+                        out.append(dict(kind="spline_inf", chains=list(ch), N=N, grid=g, con=list(con)))
     return out
 
 
@@ -475,12 +481,97 @@ def run_spline(case):
     return dict(violations=vios, evaluations=max(evals, 1), traces=5, transitions=5, outcome=explore.sha(case), nontrivial=True, sample=case)
 
 
+def spline_inf_program(chains, N, g, con, with_inf=True):
+    import rockit
+    ocp = rockit.Ocp(t0=0.3, T=1.9)
+    ch = declare_chains(ocp, chains, False)
+    xs, u = ch[0]
+    for xs_, u_ in ch:
+        ocp.subject_to(ocp.at_t0(xs_[0]) == 0.1)
+    ocp.add_objective(sum(ocp.at_tf(ca_sumsqr(xs_[0] - 1)) for xs_, u_ in ch) + sum(ocp.sum(ca_sumsqr(u_)) for xs_, u_ in ch))
+    target = {"state": xs[0], "last": xs[-1], "control": u}[con[0]]
+    e = target + con[1]
+    if with_inf:
+        if con[2] is None:
+            ocp.subject_to(e <= con[3], grid="inf")
+        else:
+            ocp.subject_to(con[2] <= (e <= con[3]), grid="inf")
+    ocp.solver("ipopt", {"ipopt.print_level": 0, "print_time": False, "ipopt.sb": "yes"})
+    ocp.method(rockit.SplineMethod(N=N, grid=rockit_grid(g)))
+    return ocp, e
+
+
+def run_spline_inf(case):
+    """grid='inf' constraints under SplineMethod: whenever the NLP rows of the constraint hold, the constrained
+    expression satisfies its bounds on a dense refinement (first crossing of the row boundary along every alphabet ray)"""
+    import casadi as ca, sys
+    from .c15 import cert_rows
+    chains, N, g, con = case["chains"], case["N"], case["grid"], case["con"]
+    tags = ["spline_inf", "chains=%s" % chains, "N=%d" % N, "grid=%s" % g, "con=%s" % (con,)]
+    vios = []
+    try:
+        ocpA, e = spline_inf_program(chains, N, g, con, True)
+        ocpB, _ = spline_inf_program(chains, N, g, con, False)
+        nlpA = NL.Nlp(ocpA); nlpB = NL.Nlp(ocpB)
+        n = nlpA.nx
+        pts = NL.alphabet(n, seed=0, full=False) + [NL.generic(n, 2, 0, lo=-0.5, hi=0.9)]
+        cert, missing = cert_rows(nlpA, nlpB, pts)
+        if not cert:
+            return dict(violations=[dict(sig="silent:no-certificate", tags=tags, detail="grid='inf' constraint adds no rows")], evaluations=1, traces=2, transitions=1, outcome="nocert", nontrivial=True, sample=case)
+        idx = [(r["idx"], r["side"]) for r in cert]
+        _, ev_ = ocpA.sample(e, grid="control", refine=12)
+        Fe = ca.Function("e", [nlpA.x, nlpA.p], [ev_])
+
+        def cert_slack(w):
+            f, gg, lb, ub = nlpA.eval(w)
+            return min((gg[i] - lb[i]) if side == "lb" else ((ub[i] - gg[i]) if side == "ub" else -abs(gg[i] - lb[i])) for i, side in idx)
+
+        def true_slack(w):
+            v = np.array(Fe(w, nlpA.p0)).reshape(-1)
+            sl = con[3] - np.max(v)
+            if con[2] is not None:
+                sl = min(sl, np.min(v) - con[2])
+            return sl
+        base = np.zeros(n)
+        if cert_slack(base) < 0:
+            return dict(violations=[], evaluations=1, traces=2, transitions=1, outcome="nostart", nontrivial=False, counts=dict(inconclusive=1), sample=case)
+        dirs = [NL.generic(n, q, 0, lo=-1, hi=1) for q in range(3)]
+        for i in range(n):
+            for sg in (1.0, -1.0):
+                d_ = np.zeros(n); d_[i] = sg; dirs.append(d_)
+        nchk = 0
+        for dvec in dirs:
+            lo, hi = 0.0, None; a = 0.05
+            for _ in range(9):
+                if cert_slack(base + a * dvec) < 0: hi = a; break
+                lo = a; a *= 2
+            if hi is not None:
+                for _ in range(50):
+                    mid = 0.5 * (lo + hi)
+                    if cert_slack(base + mid * dvec) >= 0: lo = mid
+                    else: hi = mid
+            for al in (lo, 0.9 * lo, 0.5 * lo):
+                w = base + al * dvec
+                if cert_slack(w) < 0: continue
+                sl = true_slack(w); nchk += 1
+                if sl < -1e-8:
+                    vios.append(dict(sig="unsound:spline-inf", tags=tags, detail="all rows of the grid='inf' constraint hold (min slack %g) but the expression violates its bound by %g on the refined grid" % (cert_slack(w), -sl)))
+                    break
+            if vios: break
+    except Exception as ex:
+        fr = core.rockit_frame(sys.exc_info()[2])
+        if fr is None and not isinstance(ex, (RuntimeError, AssertionError, AttributeError)):
+            raise
+        return dict(violations=[dict(sig="exception:spline-inf:%s" % (fr or type(ex).__name__), tags=tags, detail="%s: %s" % (type(ex).__name__, str(ex)[:200]))], evaluations=1, traces=2, transitions=1, outcome="exc", nontrivial=True, sample=case)
+    return dict(violations=vios, evaluations=max(nchk, 1), traces=2, transitions=len(dirs), outcome=explore.sha([case, nchk]), nontrivial=nchk > 0, counts=dict(boundary_points=nchk), sample=case)
+
+
 def run_case(case):
-    return {"micro": run_micro, "signal": run_signal, "spline": run_spline}[case["kind"]](case)
+    return {"micro": run_micro, "signal": run_signal, "spline": run_spline, "spline_inf": run_spline_inf}[case["kind"]](case)
 
 
 def describe(tier):
     return dict(
-        rule="(a) full product order 0..4 x N x {uniform, geometric, user function} grids: eval_on_knots at the knots, on refinements 1..5 with/without edges and on arbitrary sub-grids, Greville points, bspline_derivative vs an independent Cox-de Boor (scipy BSpline on the clamped knot vector) - basis matrices compared entry-wise, so every coefficient vector is decided; (b) order x N x grid x {SplineMethod, MS, DC} x width: a B-spline parameter with known coefficients and its der / der(der) sampled on every grid option vs scipy on the physical knots; B-spline variable: gist coefficients at Greville points reproduce all refinements (SplineMethod) / samples lie on one degree-d spline with N+d degrees of freedom across refinements (sampling methods); (c) SplineMethod on every integrator-chain system from a 10-element alphabet (lengths 1..4, mixed, vector states) x N x grid: chain dynamics as exact Taylor identities on refine=4 samples, refined time stamps, path-constraint rows at every refined point (refine 1..3), and MS's dynamic rows vanish / objectives agree at the sampled spline trajectory",
+        rule="(a) full product order 0..4 x N x {uniform, geometric, user function} grids: eval_on_knots at the knots, on refinements 1..5 with/without edges and on arbitrary sub-grids, Greville points, bspline_derivative vs an independent Cox-de Boor (scipy BSpline on the clamped knot vector) - basis matrices compared entry-wise, so every coefficient vector is decided; (b) order x N x grid x {SplineMethod, MS, DC} x width: a B-spline parameter with known coefficients and its der / der(der) sampled on every grid option vs scipy on the physical knots; B-spline variable: gist coefficients at Greville points reproduce all refinements (SplineMethod) / samples lie on one degree-d spline with N+d degrees of freedom across refinements (sampling methods); (c) SplineMethod on every integrator-chain system from a 10-element alphabet (lengths 1..4, mixed, vector states) x N x grid: chain dynamics as exact Taylor identities on refine=4 samples, refined time stamps, path-constraint rows at every refined point (refine 1..3), and MS's dynamic rows vanish / objectives agree at the sampled spline trajectory; (d) grid='inf' constraints (state / last chain member / control, with constant offsets, one- and two-sided) under SplineMethod: at the first crossing of the constraint rows' boundary along every alphabet ray the expression satisfies its bounds on a refine=12 sample",
         bound="order<=4, N<=%d" % (8,),
         assumptions=["scipy.interpolate.BSpline is the independent Cox-de Boor oracle", "SplineMethod cases need the networkx wheel"])
